@@ -9,6 +9,8 @@
 
 namespace vh
 {
+    void sched_yield_point();  // pool_driver.cpp: schedule point for controlled runs, no-op otherwise
+
     // ------------------------------------------------------------------ kernel plumbing
     // The kernel function is user code: it logs its own calls with one global sequence counter
     // (begin / end stamps), reads the receivers' outputs and writes its own.
@@ -75,10 +77,12 @@ namespace vh
                 auto* nd = static_cast<kernel_node*>(p);
                 if (tl_thread == 0)
                     tl_thread = ++thread_ids;
+                sched_yield_point();
                 nd->b = nd->sh->seq.fetch_add(1);
                 // the kernel-wide scalar must have reached this worker's node data (k == kexp)
                 nd->value = nd->sh->compute(nd->idx, nd->sh->out) + (nd->k - nd->sh->kexp);
                 nd->thread = tl_thread;
+                sched_yield_point();
                 nd->e = nd->sh->seq.fetch_add(1);
                 return 0;
             };
